@@ -232,6 +232,11 @@ func TestVerifC17(t *testing.T) {
 		"profile-level-id=42001f",
 		"packetization-mode=1;profile-level-id=42",
 		"packetization-mode=1;profile-level-id=zz001f",
+		// a well-formed prefix (same profile bytes as a default) with a malformed remainder: each side
+		// has to validate BOTH values, otherwise the verdict depends on which side is the receiver
+		"packetization-mode=1;profile-level-id=42e01",
+		"packetization-mode=1;profile-level-id=42e0zz",
+		"packetization-mode=1;profile-level-id=42e01f0",
 		"PACKETIZATION-MODE=1;PROFILE-LEVEL-ID=42001F",
 		"profile-id=0",
 		"profile-id=2;profile=1",
@@ -257,6 +262,15 @@ func TestVerifC17(t *testing.T) {
 			"packetization-mode=01;profile-level-id=42001f",
 			"=",
 			"profile-id",
+			"packetization-mode=1;profile-level-id=42e01f,x",
+			"packetization-mode=1;profile-level-id=42e0 1f",
+			"packetization-mode=1;profile-level-id=4",
+			"packetization-mode=1;profile-level-id=",
+			"packetization-mode=1;profile-level-id=42001",
+			"profile-id=2x",
+			"profile-id= ;profile=1",
+			"profile=0;tier=0;level-idx=5",
+			"profile=0x",
 		)
 	}
 
